@@ -451,7 +451,7 @@ func (t *cloneTree) feed(e *asm.Emitter, buf []byte, calls []hcall, depth int) {
 			case t.nilMode:
 			case s == chosen && buf != nil && g.Bool():
 				bufs[s] = buf[e.Len():] // the unused tail of the parent's own buffer
-				if gap := g.Intn(3); gap > 0 && e.Len()+2048 < len(buf) {
+				if gap := g.Intn(3); gap > 0 && len(buf)-e.Len() > 12000 {
 					// ... or another region of the same arena, not directly behind what the parent holds
 					bufs[s] = buf[e.Len()+[]int{1, 16, 1024}[g.Intn(3)]*gap:]
 					t.cells["tree:alias-target-elsewhere-in-arena"]++
